@@ -1186,6 +1186,7 @@ func (d *Data) handleIngest(r *http.Request, uuid dvid.UUID, ctx *datastore.Vers
 		}
 		batch.Put(tk, serialization)
 	}
+	dvid.VerifPoint("yield:keyvalue.handleIngest:before-commit")
 	if err := batch.Commit(); err != nil {
 		return err
 	}
